@@ -131,6 +131,35 @@ impl Report {
     }
 }
 
+#[cfg(gmsol_verif)]
+impl Report {
+    /// Verification hook: build a [`Report`] directly from field values.
+    #[allow(clippy::too_many_arguments)]
+    pub fn verif_new(
+        observations_timestamp: u32,
+        last_update_timestamp: Option<u64>,
+        price: (bool, U192),
+        bid: (bool, U192),
+        ask: (bool, U192),
+        extended_market_status: Option<ExtendedMarketStatus>,
+    ) -> Self {
+        Self {
+            feed_id: ID([0; 32]),
+            valid_from_timestamp: 0,
+            observations_timestamp,
+            last_update_timestamp,
+            native_fee: U192::ZERO,
+            link_fee: U192::ZERO,
+            expires_at: 0,
+            price,
+            bid,
+            ask,
+            market_status: MarketStatus::Unknown,
+            extended_market_status,
+        }
+    }
+}
+
 impl fmt::Debug for Report {
     fn fmt(&self, f: &mut fmt::Formatter<'_>) -> fmt::Result {
         f.debug_struct("Report")
